@@ -1,15 +1,90 @@
 //! Silent panic capture: a panic inside a library call whose contract is "returns a value" is
 //! turned into `Err("panic: ...")`; where the contract is "panics" the harness asserts it.
+//!
+//! Non-unwinding failures (the "unsafe precondition(s) violated" checks that `get_unchecked`,
+//! `from_raw_parts` & co. perform in a debug-assertion build, or a fatal signal) cannot be
+//! caught.  For those the engine leaves a *breadcrumb* — the case being executed on this thread
+//! — and the panic hook / signal handler writes it out as the replay file, prints the VIOLATION
+//! line and terminates the process with exit code 1.
 
-use std::cell::RefCell;
+use serde_json::{json, Value};
+use std::cell::{Cell, RefCell};
 use std::panic::{catch_unwind, AssertUnwindSafe};
-use std::sync::Once;
+use std::path::PathBuf;
+use std::sync::{Once, OnceLock};
 
 thread_local! {
     static LAST: RefCell<Option<String>> = const { RefCell::new(None) };
+    /// (sub-check name, closure producing the current case)
+    static CURRENT: Cell<Option<(*const str, *const (dyn Fn() -> Value + 'static))>> = const { Cell::new(None) };
 }
 
 static HOOK: Once = Once::new();
+static IDENT: OnceLock<(String, PathBuf, String, u64)> = OnceLock::new();
+
+/// property id / verif dir / tier / seed, for replay files written from the hook
+pub fn set_identity(id: &str, verif: PathBuf, tier: &str, seed: u64) {
+    let _ = IDENT.set((id.to_string(), verif, tier.to_string(), seed));
+}
+
+/// Run `f` with a breadcrumb naming the case it executes.
+pub fn with_case<R>(sub: &str, mk: &dyn Fn() -> Value, f: impl FnOnce() -> R) -> R {
+    struct Clear(Option<(*const str, *const (dyn Fn() -> Value + 'static))>);
+    impl Drop for Clear {
+        fn drop(&mut self) {
+            CURRENT.with(|c| c.set(self.0));
+        }
+    }
+    // erase the lifetime: the pointer is only dereferenced while `f` runs
+    let p: *const (dyn Fn() -> Value + '_) = mk;
+    let p: *const (dyn Fn() -> Value + 'static) = unsafe { std::mem::transmute(p) };
+    let prev = CURRENT.with(|c| c.replace(Some((sub as *const str, p))));
+    let _g = Clear(prev);
+    f()
+}
+
+fn die_with_breadcrumb(msg: &str) -> ! {
+    let (id, verif, tier, seed) = IDENT
+        .get()
+        .cloned()
+        .unwrap_or_else(|| ("?".into(), PathBuf::from("/verif"), "quick".into(), 1));
+    let cur = CURRENT.with(|c| c.get());
+    match cur {
+        Some((sub, mk)) => {
+            let sub: &str = unsafe { &*sub };
+            let case = unsafe { (&*mk)() };
+            let dir = verif.join("replays").join("new");
+            let _ = std::fs::create_dir_all(&dir);
+            let s = serde_json::to_string(&case).unwrap_or_default();
+            let mut h: u64 = 0xcbf2_9ce4_8422_2325;
+            for b in s.bytes().chain(sub.bytes()) {
+                h = (h ^ b as u64).wrapping_mul(0x1000_0000_01b3);
+            }
+            let p = dir.join(format!("{}-{}-{:016x}.json", id, sub.replace('/', "_"), h));
+            let doc = json!({"property": id, "sub": sub, "case": case, "message": msg, "tier": tier, "seed": seed, "fatal": true});
+            let _ = std::fs::write(&p, serde_json::to_string_pretty(&doc).unwrap_or_default());
+            println!("VIOLATION property={} replay={}", id, p.display());
+            println!("  sub-check: {}", sub);
+            println!("  message:   fatal (non-unwinding) failure inside the library: {}", msg);
+            let c: String = s.chars().take(1500).collect();
+            println!("  case:      {}", c);
+            use std::io::Write;
+            let _ = std::io::stdout().flush();
+            std::process::exit(1);
+        }
+        None => {
+            eprintln!("INCONCLUSIVE: fatal failure outside any case: {}", msg);
+            std::process::exit(2);
+        }
+    }
+}
+
+extern "C" fn on_signal(sig: libc::c_int) {
+    // not async-signal-safe; the process is lost anyway and this is best effort
+    // a non-unwinding panic runs the hook (which stored its message) and then aborts
+    let last = LAST.with(|l| l.try_borrow().ok().and_then(|b| b.clone())).unwrap_or_default();
+    die_with_breadcrumb(&format!("fatal signal {} {}", sig, last));
+}
 
 pub fn install_hook() {
     HOOK.call_once(|| {
@@ -25,8 +100,17 @@ pub fn install_hook() {
                 .location()
                 .map(|l| format!("{}:{}", l.file(), l.line()))
                 .unwrap_or_default();
-            LAST.with(|l| *l.borrow_mut() = Some(format!("{} at {}", msg, loc)));
+            let full = format!("{} at {}", msg, loc);
+            if msg.starts_with("unsafe precondition(s) violated") {
+                die_with_breadcrumb(&full);
+            }
+            LAST.with(|l| *l.borrow_mut() = Some(full));
         }));
+        unsafe {
+            for sig in [libc::SIGSEGV, libc::SIGBUS, libc::SIGILL, libc::SIGFPE, libc::SIGABRT] {
+                libc::signal(sig, on_signal as usize);
+            }
+        }
     });
 }
 
